@@ -150,3 +150,7 @@ def run(ctx):
     # "the sub-project's duration without its absence steps" is what BaseProject.remove_absence_time_list leaves in project.time
     from .C18 import check as absence_editors
     absence_editors(ctx)
+    # the loaded project's time / status / unit_timedelta are what write_simple_json saved (C16 project table)
+    from .C16 import r16_1
+    from ..jsontab import JsonTables
+    r16_1(ctx, JsonTables(ctx))
